@@ -77,6 +77,13 @@ def run(ck):
     # the deadline is converted relative to now with a saturating subtraction (an already expired timer gives zero, not a panic)
     sat = [cs for cs in pp.calls() + [c for cl in f.closures_of(pp) for c in cl.calls()] if cs.name in ("saturating_duration_since", "checked_duration_since")]
     ck.verdict(bool(sat), "1", "T6-provenance", pp, "deadline->duration-saturates", "time to the next deadline is computed with a saturating subtraction (an expired timer yields a zero wait)", "time to the next deadline is not computed with a saturating/checked subtraction (an expired timer may panic or yield a huge wait)", site=pp.where())
+    # .. and relative to a clock read inside Poll::poll itself, i.e. after the before_sleep hooks and everything else
+    # dispatch_events did before: against an earlier `now` the wait is too long by the time spent since
+    for cs in sat:
+        owner = cs.body
+        nows = [c.bb for c in owner.calls() if c.f and c.f["path"] == "std::time::Instant::now" and not owner.is_cleanup(c.bb)]
+        fresh = len(cs.args) > 1 and bool(nows) and T.resolves_to_call(owner, cs.args[1], nows) and not any(r[0] == "arg" for r, p_ in owner.resolve(cs.args[1]))
+        ck.verdict(fresh, "1", "T6-provenance", owner, "deadline->duration-uses-fresh-clock", "the time to the next deadline is measured from Instant::now() read in Poll::poll, immediately before the wait", "the time to the next deadline is measured from a clock value that was not read here (%s): time spent between that reading and the wait (before_sleep hooks, callbacks) is slept on top, so dispatch() oversleeps the timer" % owner.roots_str(cs.args[1]) if len(cs.args) > 1 else "?", site=owner.where(cs.bb))
     # pass-through of the caller's timeout
     for q, callee, argn in (("EventLoop::dispatch", ("dispatch_events",), 1), ("EventLoop::run", ("dispatch", "dispatch_events"), 1)):
         b = ck.opt_body(q)
@@ -118,8 +125,14 @@ def run(ck):
     ck.floor("2", "stores of Some(Duration::ZERO) into the timeout", len(zero_stores), 1)
     if bs:
         some, none = T.option_split(b, bs[0].bb)
+        # .. or on the edge where the synthetic queue was found non-empty after the hooks ran
+        nonempty = []
+        for c in T.calls(b, name="is_empty"):
+            if not b.is_cleanup(c.bb) and T.path_has(b, c.args[0], ".synthetic_events") and any(b.dominates(x.bb, c.bb) or x.bb in b.reachable([0]) and c.bb in b.reachable([x.to]) for x in bs):
+                tr_, fa_ = T.bool_split(b, c.bb)
+                nonempty += fa_
         for i in zero_stores:
-            ck.verdict(bool(some) and T.reachable_only_via(b, i, some), "2", "T4-guarded-by", b, "zero-timeout-only-if-synthetic-event", "the timeout is forced to zero only on the edge where before_sleep returned an event", "dispatch forces a zero timeout although no synthetic event was produced: the loop spins instead of sleeping", site=b.where(i))
+            ck.verdict((bool(some) and T.reachable_only_via(b, i, some)) or (bool(nonempty) and T.reachable_only_via(b, i, nonempty)), "2", "T4-guarded-by", b, "zero-timeout-only-if-synthetic-event", "the timeout is forced to zero only on the edge where before_sleep returned an event", "dispatch forces a zero timeout although no synthetic event was produced: the loop spins instead of sleeping", site=b.where(i))
     # any other store into the timeout must derive from the timeout itself (EINTR adjustment)
     for i, j, st in b.statements():
         if st["s"] == "assign" and st["pl"]["l"] == 2 and not st["pl"]["p"] and not b.is_cleanup(i) and i not in zero_stores:
